@@ -197,6 +197,9 @@ func (n *Namespace) add(c *serverConn, auth json.RawMessage) (*serverSocket, err
 			admitted = false
 		)
 		restore := func(session *adapter.SessionToPersist) {
+			if l := len(session.MissedPackets); l > 0 {
+				authRecoveryFields.Offset = session.MissedPackets[l-1].ID
+			}
 			socket, err = newServerSocket(n.server, c, n, c.parser, session)
 			if err == nil && !n.server.connectionStateRecovery.UseMiddlewares {
 				admitted = true
@@ -241,6 +244,22 @@ func (n *Namespace) add(c *serverConn, auth json.RawMessage) (*serverSocket, err
 		return nil, err
 	}
 
+	if restorer, ok := n.adapter.(adapter.SessionRestorer); ok && socket.Recovered() {
+		// The middlewares took their time. The packets that were broadcast in the meantime are sent
+		// to the socket before it is admitted (again, with broadcasts held back).
+		admitted := restorer.RestoreSessionFunc(socket.pid, authRecoveryFields.Offset, func(session *adapter.SessionToPersist) {
+			err = socket.sendMissedPackets(session.MissedPackets)
+			if err == nil {
+				err = n.doConnect(socket)
+			}
+		})
+		if admitted {
+			if err != nil {
+				socket.leaveAll()
+			}
+			return socket, err
+		}
+	}
 	return socket, n.doConnect(socket)
 }
 
